@@ -87,6 +87,9 @@ type c17Case struct {
 	Pattern string `json:"pattern"`
 	Driver  string `json:"driver"` // transform | reader-norelease
 	Cycles  int    `json:"cycles"`
+	// Heap: measure the bytes reachable from the Transform / reader object (every 4th delivered record)
+	// instead of the node tree, and require that they do not keep growing
+	Heap bool `json:"heap,omitempty"`
 }
 
 func c17Input(f c17Fmt, sep, pattern string, cycles int) string {
@@ -134,6 +137,7 @@ func treeSig(n *idr.Node) (int, uint64) {
 type c17Obs struct {
 	Sizes []int
 	Sigs  []uint64
+	Heap  []int64 // bytes reachable from the Transform / format reader object at each delivered record
 	End   string
 }
 
@@ -168,6 +172,9 @@ func c17Run(f c17Fmt, cs c17Case) (c17Obs, error) {
 			n, s := treeSig(rr.Raw().(*idr.Node))
 			o.Sizes = append(o.Sizes, n)
 			o.Sigs = append(o.Sigs, s)
+			if cs.Heap && len(o.Sizes)%4 == 0 {
+				o.Heap = append(o.Heap, core.DeepSize(tr))
+			}
 		}
 		o.End = "no-terminal-result"
 		return o, nil
@@ -192,6 +199,9 @@ func c17Run(f c17Fmt, cs c17Case) (c17Obs, error) {
 		n, s := treeSig(node)
 		o.Sizes = append(o.Sizes, n)
 		o.Sigs = append(o.Sigs, s)
+		if cs.Heap && len(o.Sizes)%4 == 0 {
+			o.Heap = append(o.Heap, core.DeepSize(r))
+		}
 	}
 	o.End = "no-terminal-result"
 	return o, nil
@@ -222,6 +232,30 @@ func c17Check(cs c17Case) (sig, detail string, o c17Obs) {
 	if len(o.Sizes) != want || o.End != "eof" {
 		return "harness:unexpected-transcript", fmt.Sprintf("%+v: delivered %d records (want %d), end %q", cs, len(o.Sizes), want, o.End), o
 	}
+	if cs.Heap {
+		// steady state: the largest retained size seen in the second half of the run must not exceed the
+		// largest seen between 10% and 50% by more than a small constant (buffer alignment makes the size
+		// fluctuate, so it is not compared record by record); a leak of one byte per cycle adds >= cycles/2
+		n := len(o.Heap)
+		if n < 200 {
+			return "harness:heap-run-too-short", fmt.Sprintf("%+v: %d measurements", cs, n), o
+		}
+		var m1, m2 int64
+		for i := n / 10; i < n/2; i++ {
+			if o.Heap[i] > m1 {
+				m1 = o.Heap[i]
+			}
+		}
+		for i := n / 2; i < n; i++ {
+			if o.Heap[i] > m2 {
+				m2 = o.Heap[i]
+			}
+		}
+		if m2 > m1+256 {
+			return fmt.Sprintf("retained-bytes-grow:%s:sep=%s:%s", cs.Fmt, cs.Sep, cs.Driver), fmt.Sprintf("%+v: bytes reachable from the %s object: max %d between 10%% and 50%% of the run, max %d in the second half (first measurements %v, last %v)", cs, cs.Driver, m1, m2, o.Heap[:4], o.Heap[n-4:]), o
+		}
+		return "", "", o
+	}
 	warm := 2 * period
 	for i := warm; i+period < len(o.Sigs); i++ {
 		if o.Sigs[i] != o.Sigs[i+period] || o.Sizes[i] != o.Sizes[i+period] {
@@ -244,7 +278,7 @@ func init() {
 	core.Register(&core.Prop{
 		ID:    "C17",
 		Level: "exploration",
-		Rule:  "for every format item x separator x periodic outcome pattern over {pass, filtered-out, transform-fails} (quick: 14 words; thorough: every word of length <= 5 with a delivered record) x driver {Transform loop, FormatReader without Release}: prefix (sep record)^k suffix with k cycles; for every delivered record the tree reachable from its root is measured (node count, structure hash) and must be periodic with the pattern period after a 2-period warm-up (a lasso in the retained-state graph, which bounds the size for every k); distinct by (item, separator, pattern, driver)",
+		Rule:  "for every format item x separator x periodic outcome pattern over {pass, filtered-out, transform-fails} (quick: 14 words; thorough: every word of length <= 5 with a delivered record) x driver {Transform loop, FormatReader without Release}: prefix (sep record)^k suffix with k cycles; for every delivered record the tree reachable from its root is measured (node count, structure hash) and must be periodic with the pattern period after a 2-period warm-up (a lasso in the retained-state graph, which bounds the size for every k); plus, per item x separator x driver, one run of 1500 (thorough 6000) cycles in which the BYTES reachable from the Transform / reader object (reflection walk: objects behind pointers, slice capacities, strings, map entries) are measured at every 4th delivered record and the maximum over the second half must not exceed the maximum between 10% and 50% by more than 256 bytes; distinct by (item, separator, pattern, driver)",
 		Assumptions: []string{
 			"readers are deterministic functions of their retained state and the remaining input, so a repeated retained-tree signature at the same phase of a periodic input repeats forever",
 			"non-target declarations that themselves repeat without bound (e.g. repeated global envelopes) are outside the property ('a fixed set of ancestors')",
@@ -295,6 +329,34 @@ func init() {
 							case c.WantSample():
 								c.Sample(map[string]interface{}{"case": cs, "retained_nodes_per_record_head": o.Sizes[:minInt(8, len(o.Sizes))], "retained_nodes_last": last})
 							}
+						}
+					}
+				}
+				// retained bytes (everything reachable from the Transform / reader object, not only nodes)
+				for sep := range f.Seps {
+					if strings.HasPrefix(f.Name, "xml") && sep == "chardata" {
+						continue // known finding: one text node per record stays in the tree
+					}
+					for _, drv := range []string{"transform", "reader-norelease"} {
+						idx++
+						if !c.Mine(idx) {
+							continue
+						}
+						cs := c17Case{Fmt: f.Name, Sep: sep, Pattern: "PFTP", Driver: drv, Cycles: 1500, Heap: true}
+						if !c.Quick() {
+							cs.Cycles = 6000
+						}
+						c.Begin(func() interface{} { return cs })
+						sig, detail, o := c17Check(cs)
+						c.Eval(fmt.Sprintf("heap|%s|%s|%s", f.Name, sep, drv))
+						c.Count("retained_bytes_measurements", int64(len(o.Heap)))
+						switch {
+						case strings.HasPrefix(sig, "harness:"):
+							c.HarnessError(sig + ": " + detail)
+						case sig != "":
+							c.Violation(sig, detail, cs, func() string { s, _, _ := c17Check(cs); return s })
+						case c.WantSample():
+							c.Sample(map[string]interface{}{"case": cs, "retained_bytes_first": o.Heap[:3], "retained_bytes_last": o.Heap[len(o.Heap)-3:]})
 						}
 					}
 				}
